@@ -53,6 +53,12 @@ def classify(rc, out):
         return "unsupported"
     if rc == 0 and "MIRI-SCN" in out:
         return "clean"
+    if rc == -9:
+        # ran into the wall-clock cap: nothing was decided by this execution. Never an alarm and
+        # never a harness error - a tree whose threads do more work under the interpreter (each of
+        # 130 threads building a table of its own, say) is slow, not wrong; a call that really
+        # never returns is Engine H's business (I5).
+        return "timeout"
     return "harness"
 
 
@@ -239,6 +245,8 @@ def run_engine(seed, executions, jobs, replay_dir, seeds_per_scenario=4, populat
         again = list(ex.map(lambda p: run_one(p[0], p[1]), det_pairs))
     det_mismatch = 0
     for a, b in zip(results[len(pop_pairs):], again):
+        if "timeout" in (a["kind"], b["kind"]):
+            continue
         if a["kind"] != b["kind"] or (a["info"] or {}).get("order") != (b["info"] or {}).get("order"):
             det_mismatch += 1
     kinds = {}
@@ -274,7 +282,7 @@ def run_engine(seed, executions, jobs, replay_dir, seeds_per_scenario=4, populat
             a["other_seed"] = b["miri_seed"]
             results.append(a)
     for r in results:
-        if r["kind"] in ("clean", "unsupported"):
+        if r["kind"] in ("clean", "unsupported", "timeout"):
             continue
         if r["kind"] == "harness":
             harness.append("miri scn=%d seed=%d: %s" % (r["scn_seed"], r["miri_seed"], r["tail"][-300:]))
@@ -319,6 +327,7 @@ def run_engine(seed, executions, jobs, replay_dir, seeds_per_scenario=4, populat
         "big_input_profile_executions(vertices per boundary; oracle = data-race detector)": {str(5 * (2048 if -n - 100 >= 7 else 2 ** (-n - 100 + 3))): pops.count(n) for n in sorted(set(pops)) if n <= -100},
         "miri_seeds_per_scenario": seeds_per_scenario,
         "outcomes": kinds,
+        "executions_that_hit_the_wall_clock_cap(undecided, not counted as clean)": kinds.get("timeout", 0),
         "simulated_time": {"note": "no clock in the system; logical steps", "operations_executed": total_ops},
         "executions_with_overlapping_ops": overlapped,
         "distinct_interleavings(order of op start/end events, Relaxed ticket)": len(orders),
@@ -357,7 +366,7 @@ def replay(path):
     if r["kind"] == "clean":
         print("REPLAY clean: the recorded %s does not occur on the current tree" % rep["violation"]["kind"])
         return 0
-    if r["kind"] in ("harness", "unsupported"):
+    if r["kind"] in ("harness", "unsupported", "timeout"):
         print("REPLAY failed: %s" % r["tail"][-500:])
         return 2
     print("VIOLATION property=C13 replay=%s" % path)
